@@ -20,6 +20,27 @@ from . import env, refcodec as rc, simkernel as sk
 R, P, E, T = 0x80, 0x40, 0x20, 0x10
 
 
+def _canon(x, depth=0):
+    """Canonical, hashable rendering of a private container of the node for the state key; total (never raises) so that a change of
+    representation in the code under test cannot abort the search."""
+    try:
+        if isinstance(x, dict):
+            return tuple(sorted(((repr(k), _canon(v, depth + 1)) for k, v in x.items()), key=repr))
+        if isinstance(x, (list, tuple)) or type(x).__name__ == "deque":
+            return tuple(_canon(v, depth + 1) for v in x)
+        if isinstance(x, (set, frozenset)):
+            return tuple(sorted((_canon(v, depth + 1) for v in x), key=repr))
+        if isinstance(x, (int, str, bytes, float, bool)) or x is None:
+            return x
+        if depth < 3 and hasattr(x, "__dict__"):
+            return (type(x).__name__, _canon(vars(x), depth + 1))
+        if depth < 3 and hasattr(x, "__iter__"):
+            return (type(x).__name__, tuple(_canon(v, depth + 1) for v in x))
+    except Exception:
+        pass
+    return type(x).__name__
+
+
 class Sock:
     """Environment-side knowledge about one connection."""
 
@@ -441,6 +462,11 @@ class Scenario:
             # p: the peer itself is the origin; c: an origin host that spells its name with capital letters
             origin = {"a": "origin-a.example.org", "b": "origin-b.example.org", "p": host, "c": "Origin-C.Example.ORG"}[parts[1]]
             d = env.acr(host=origin, hbh=hbh, e2e=0x7000 + int(parts[3]), flags=R | P | (T if parts[2] == "1" else 0))
+        elif name.startswith("rz:"):
+            # rz:<origin a|b>:<T 0|1>   like rt: with the end-to-end identifier 0 (a legal value)
+            parts = name.split(":")
+            origin = {"a": "origin-a.example.org", "b": "origin-b.example.org"}[parts[1]]
+            d = env.acr(host=origin, hbh=hbh, e2e=0, flags=R | P | (T if parts[2] == "1" else 0))
         elif name.startswith("rx:") or name.startswith("rx1:"):
             # rx:<origin a|b|p>:<T 0|1>:<k>   hop-by-hop AND end-to-end id from one pool: requests of different origin hosts arriving on
             # different connections may carry the same identifier pair (hop-by-hop ids are unique per connection only, end-to-end ids
@@ -577,7 +603,7 @@ class Scenario:
                        tuple(sorted(s.answered_out))) for s in self.socks)
         waiting = tuple(sorted((tuple(sorted(map(repr, m))),) for h, m in getattr(node, "_peer_waiting_answer", {}).items() if m))
         appw = tuple(sorted(getattr(node, "_app_waiting_answer", {})))
-        sent = tuple(sorted((h, tuple(d)) for h, d in getattr(node, "_sent_answers", {}).items()))
+        sent = _canon(getattr(node, "_sent_answers", {}))      # (whatever container a change may have put there)
         apps = tuple((a.is_ready.is_set(), tuple(sorted(getattr(a, "_answer_waiting", {})))) for a in nw.apps)
         live = tuple(sorted((t.kind or t.name) for t in nw.world.live_threads()))
         return (tuple(conns), tuple(peers), socks, waiting, appw, sent, apps, live, getattr(node, "_stopping", False),
